@@ -39,6 +39,16 @@ class Interp(Exec):
             raise Unsupported("statement %s at line %d" % (s.__class__.__name__, s.lineno))
         return m(s)
 
+    def frame_contract(self):
+        """The contract that governs the function whose body is being executed: for the function under verification the variant named
+        by the check (module:Qual.name@tag), otherwise the callee's plain contract."""
+        fi = self.frame.fi if self.frame else None
+        if fi is None:
+            return None
+        if fi.fid == self.fid.split("@")[0]:
+            return self.reg.contracts.get(self.fid)
+        return self.reg.contracts.get(fi.fid)
+
     def st_Pass(self, s):
         pass
 
@@ -127,7 +137,7 @@ class Interp(Exec):
                 self.st.env[name] = VNone
 
     def st_Assert(self, s):
-        ctr = self.reg.contracts.get(self.frame.fi.fid) if self.frame and self.frame.fi else None
+        ctr = self.frame_contract()
         if ctr is not None and ctr.labels.get("asserts_assumed"):
             # stated in the contract: the function's own run-time asserts are taken as preconditions (AssertionError paths are outside the claim)
             try:
@@ -286,7 +296,7 @@ class Interp(Exec):
         """while / for with an invariant (cut) or unrolling for concrete iteration spaces."""
         fi = self.frame.fi
         ordinal = self.loop_ordinal_of(fi, s)
-        c = self.reg.contracts.get(fi.fid)
+        c = self.frame_contract()
         invs = c.loops.get(ordinal) if c else None
         if c is not None and c.loops and fi.fid.split("@")[0] == self.fid.split("@")[0] and self.loop_drift(fi, c):
             # the loop structure of the function no longer matches the contract (code was restructured): every invariant clause of the
@@ -494,7 +504,7 @@ class Interp(Exec):
     def assign(self, t, v):
         if isinstance(t, ast.Name):
             if isinstance(v, VCont) and isinstance(self.cont(v), EmptyV) and self.frame is not None:
-                c = self.reg.contracts.get(self.frame.fi.fid)
+                c = self.frame_contract()
                 lt = c.labels.get("local_types", {}).get(t.id) if c else None
                 if lt is not None:
                     self.materialize(v, lt)
